@@ -1,6 +1,408 @@
 // Contract harnesses for ntp-proto/src/config.rs (child module: sees private items).
+// Property C39: accepted step thresholds are never negative / NaN / from an infinity, in the
+// single-number form and in the per-direction ({forward = x, backward = y}) form; the
+// deserializers never panic for any number.
+//
+// The visitors are function-local structs, so they are driven through the real
+// `StepThreshold::deserialize` / `ThresholdPart::deserialize` /
+// `deserialize_option_accumulated_step_panic_threshold` with serde's own value deserializers
+// (error type `serde::de::value::Error`).  `toml` hands numbers to `deserialize_any` visitors as
+// `visit_f64` (floats, including `nan`, `inf`, `-inf` literals) and `visit_i64` (integers); u64 is
+// covered as well since the visitors implement it.
 #![allow(unused_imports)]
 use super::*;
+use serde::de::value::{
+    Error as VErr, F64Deserializer, I64Deserializer, MapDeserializer, StrDeserializer, U64Deserializer,
+};
+use serde::de::IntoDeserializer;
+
+// A map value of any of the scalar kinds the visitors implement (test driver, not under test).
+#[derive(Clone, Copy)]
+enum Val {
+    F(f64),
+    I(i64),
+    U(u64),
+    // index into STRS (a `&str` payload next to f64/i64 payloads in one enum loses its pointer in
+    // Kani 0.68 / CBMC 6.11 when the enum is copied: observed, so the string is looked up late)
+    S(u8),
+}
+const STRS: [&str; 8] = ["inf", "nan", "-inf", "+inf", "Inf", "", "infinity", "in"];
+impl<'de> serde::Deserializer<'de> for Val {
+    type Error = VErr;
+    fn deserialize_any<V: Visitor<'de>>(self, visitor: V) -> Result<V::Value, VErr> {
+        match self {
+            Val::F(v) => visitor.visit_f64(v),
+            Val::I(v) => visitor.visit_i64(v),
+            Val::U(v) => visitor.visit_u64(v),
+            Val::S(k) => visitor.visit_str(STRS[k as usize]),
+        }
+    }
+    serde::forward_to_deserialize_any! {
+        bool i8 i16 i32 i64 i128 u8 u16 u32 u64 u128 f32 f64 char str string bytes byte_buf option
+        unit unit_struct newtype_struct seq tuple tuple_struct map struct enum identifier ignored_any
+    }
+}
+impl<'de> IntoDeserializer<'de, VErr> for Val {
+    type Deserializer = Val;
+    fn into_deserializer(self) -> Val {
+        self
+    }
+}
+
+fn vs(x: &'static str) -> Val {
+    let mut k = 0;
+    while k < STRS.len() {
+        if STRS[k] == x {
+            return Val::S(k as u8);
+        }
+        k += 1;
+    }
+    panic!("harness string not in STRS");
+}
+
+fn de_map(entries: Vec<(&'static str, Val)>) -> Result<StepThreshold, VErr> {
+    StepThreshold::deserialize(MapDeserializer::<_, VErr>::new(entries.into_iter()))
+}
+
+// The statement's predicate on one accepted bound that was produced from the number `v`.
+fn bound_ok(b: Option<NtpDuration>, v: f64) -> bool {
+    match b {
+        // present bound: non-negative, and its source was a finite non-negative number
+        Some(d) => d >= NtpDuration::ZERO && !v.is_nan() && !v.is_infinite() && v >= 0.0 && d == NtpDuration::from_seconds(v),
+        None => false,
+    }
+}
+
+// ------------------------------------------------------------------ single-number form
+
+// post⇐statement: for EVERY f64 the single-number form never panics; Ok(t) ⇒ both bounds present,
+// equal, non-negative and produced from a finite non-negative number; every NaN, ±inf and negative
+// number is rejected; every finite non-negative number is accepted (so the check is not vacuous).
+crate::verif_common::harness! {
+    #[kani::stub(alloc::fmt::format, crate::verif_common::fmt_format)]
+    fn c39_p_single_f64() {
+        let v: f64 = kani::any();
+        let r = StepThreshold::deserialize(F64Deserializer::<VErr>::new(v));
+        match r {
+            Ok(t) => {
+                assert!(bound_ok(t.forward, v));
+                assert!(bound_ok(t.backward, v));
+                assert!(t.forward == t.backward);
+            }
+            Err(_) => { assert!(v.is_nan() || v.is_infinite() || v < 0.0) }
+        }
+        kani::cover!(r.is_ok(), "some number accepted");
+        kani::cover!(r.is_err(), "some number rejected");
+    }
+}
+
+crate::verif_common::harness! {
+    #[kani::stub(alloc::fmt::format, crate::verif_common::fmt_format)]
+    fn c39_p_single_i64() {
+        let v: i64 = kani::any();
+        let r = StepThreshold::deserialize(I64Deserializer::<VErr>::new(v));
+        match r {
+            Ok(t) => {
+                assert!(v >= 0);
+                assert!(bound_ok(t.forward, v as f64));
+                assert!(bound_ok(t.backward, v as f64));
+            }
+            Err(_) => { assert!(v < 0) }
+        }
+        kani::cover!(r.is_ok(), "accepted");
+        kani::cover!(r.is_err(), "rejected");
+    }
+}
+
+crate::verif_common::harness! {
+    #[kani::stub(alloc::fmt::format, crate::verif_common::fmt_format)]
+    fn c39_p_single_u64() {
+        let v: u64 = kani::any();
+        let r = StepThreshold::deserialize(U64Deserializer::<VErr>::new(v));
+        // every u64 is a finite non-negative number: accepted
+        let t = r.expect("u64 accepted");
+        assert!(bound_ok(t.forward, v as f64));
+        assert!(bound_ok(t.backward, v as f64));
+        kani::cover!(t.forward == Some(NtpDuration::MAX), "saturation reachable");
+    }
+}
+
+// String form: exactly "inf" means "no limit in both directions"; any other string is rejected.
+// Bounded stand-in for "all strings": the three 3-character strings with one position replaced by
+// an arbitrary Unicode scalar value, plus fixed strings of other lengths.
+crate::verif_common::harness! {
+    #[kani::unwind(10)]
+    #[kani::stub(alloc::fmt::format, crate::verif_common::fmt_format)]
+    fn c39_b_single_str() {
+        let c: char = kani::any();
+        let mut s = String::new();
+        let pos: u8 = kani::any();
+        kani::assume(pos < 3);
+        let base = ['i', 'n', 'f'];
+        s.push(if pos == 0 { c } else { base[0] });
+        s.push(if pos == 1 { c } else { base[1] });
+        s.push(if pos == 2 { c } else { base[2] });
+        let r = StepThreshold::deserialize(StrDeserializer::<VErr>::new(s.as_str()));
+        let is_inf = c == base[pos as usize];
+        match r {
+            Ok(t) => { assert!(is_inf && t.forward.is_none() && t.backward.is_none()) }
+            Err(_) => { assert!(!is_inf) }
+        }
+        kani::cover!(r.is_ok(), "inf accepted");
+        kani::cover!(r.is_err(), "other string rejected");
+    }
+}
+
+crate::verif_common::harness! {
+    #[kani::unwind(10)]
+    #[kani::stub(alloc::fmt::format, crate::verif_common::fmt_format)]
+    fn c39_b_single_str_fixed() {
+        let s = match kani::any::<u8>() { 0 => "", 1 => "in", 2 => "infx", 3 => "nan", 4 => "-inf", 5 => "+inf", 6 => "1.0", _ => "infinity" };
+        let r = StepThreshold::deserialize(StrDeserializer::<VErr>::new(s));
+        assert!(r.is_err());
+        kani::cover!(true, "reachable");
+    }
+}
+
+// ------------------------------------------------------------------ per-direction form
+
+// post⇐statement: {forward = v} for EVERY f64 v never panics; Ok(t) ⇒ the forward bound, when
+// present, is non-negative and came from a finite non-negative number; backward stays absent.
+// (The real code fails this: see FINDINGS — NaN/±inf hit the debug_assert in
+// NtpDuration::from_seconds, negatives are accepted.)
+crate::verif_common::harness! {
+    #[kani::unwind(10)]
+    #[kani::stub(alloc::fmt::format, crate::verif_common::fmt_format)]
+    fn c39_p_map_forward_f64() {
+        let v: f64 = kani::any();
+        let r = de_map(vec![("forward", Val::F(v))]);
+        if let Ok(t) = r {
+            assert!(t.backward.is_none(), "only the named direction is set");
+            assert!(t.forward.is_none() || bound_ok(t.forward, v), "accepted forward bound is a finite non-negative number");
+        }
+        kani::cover!(matches!(r, Ok(t) if t.forward.is_some()), "some forward bound accepted");
+    }
+}
+
+crate::verif_common::harness! {
+    #[kani::unwind(10)]
+    #[kani::stub(alloc::fmt::format, crate::verif_common::fmt_format)]
+    fn c39_p_map_backward_f64() {
+        let v: f64 = kani::any();
+        let r = de_map(vec![("backward", Val::F(v))]);
+        if let Ok(t) = r {
+            assert!(t.forward.is_none(), "only the named direction is set");
+            assert!(t.backward.is_none() || bound_ok(t.backward, v), "accepted backward bound is a finite non-negative number");
+        }
+        kani::cover!(matches!(r, Ok(t) if t.backward.is_some()), "some backward bound accepted");
+    }
+}
+
+// Both directions, independent values; one harness per key order.
+crate::verif_common::harness! {
+    #[kani::unwind(10)]
+    #[kani::stub(alloc::fmt::format, crate::verif_common::fmt_format)]
+    fn c39_p_map_both_fb_f64() {
+        let f: f64 = kani::any();
+        let b: f64 = kani::any();
+        let r = de_map(vec![("forward", Val::F(f)), ("backward", Val::F(b))]);
+        if let Ok(t) = r {
+            assert!(t.forward.is_none() || bound_ok(t.forward, f), "accepted forward bound is a finite non-negative number");
+            assert!(t.backward.is_none() || bound_ok(t.backward, b), "accepted backward bound is a finite non-negative number");
+        }
+        kani::cover!(matches!(r, Ok(t) if t.forward.is_some() && t.backward.is_some() && t.forward != t.backward), "two different bounds accepted");
+    }
+}
+
+crate::verif_common::harness! {
+    #[kani::unwind(10)]
+    #[kani::stub(alloc::fmt::format, crate::verif_common::fmt_format)]
+    fn c39_p_map_both_bf_f64() {
+        let f: f64 = kani::any();
+        let b: f64 = kani::any();
+        let r = de_map(vec![("backward", Val::F(b)), ("forward", Val::F(f))]);
+        if let Ok(t) = r {
+            assert!(t.forward.is_none() || bound_ok(t.forward, f), "accepted forward bound is a finite non-negative number");
+            assert!(t.backward.is_none() || bound_ok(t.backward, b), "accepted backward bound is a finite non-negative number");
+        }
+        kani::cover!(matches!(r, Ok(t) if t.forward.is_some() && t.backward.is_some() && t.forward != t.backward), "two different bounds accepted");
+    }
+}
+
+// Integer values in the per-direction form (toml integers arrive as visit_i64).
+crate::verif_common::harness! {
+    #[kani::unwind(10)]
+    #[kani::stub(alloc::fmt::format, crate::verif_common::fmt_format)]
+    fn c39_p_map_i64() {
+        let v: i64 = kani::any();
+        let fwd: bool = kani::any();
+        let r = de_map(vec![(if fwd { "forward" } else { "backward" }, Val::I(v))]);
+        if let Ok(t) = r {
+            let (set, other) = if fwd { (t.forward, t.backward) } else { (t.backward, t.forward) };
+            assert!(other.is_none());
+            assert!(set.is_none() || bound_ok(set, v as f64), "accepted integer bound is non-negative");
+        }
+        kani::cover!(r.is_ok(), "accepted");
+    }
+}
+
+crate::verif_common::harness! {
+    #[kani::unwind(10)]
+    #[kani::stub(alloc::fmt::format, crate::verif_common::fmt_format)]
+    fn c39_p_map_u64() {
+        let v: u64 = kani::any();
+        let fwd: bool = kani::any();
+        let r = de_map(vec![(if fwd { "forward" } else { "backward" }, Val::U(v))]);
+        let t = r.expect("every u64 is a valid bound");
+        let (set, other) = if fwd { (t.forward, t.backward) } else { (t.backward, t.forward) };
+        assert!(other.is_none());
+        assert!(bound_ok(set, v as f64));
+        kani::cover!(true, "reachable");
+    }
+}
+
+// "inf" for a direction means no bound in that direction; the other direction keeps its number.
+crate::verif_common::harness! {
+    #[kani::unwind(10)]
+    #[kani::stub(alloc::fmt::format, crate::verif_common::fmt_format)]
+    fn c39_p_map_inf_and_number() {
+        let v: u32 = kani::any();
+        let t = if kani::any() {
+            de_map(vec![("forward", vs("inf")), ("backward", Val::U(v as u64))]).expect("ok")
+        } else {
+            let t = de_map(vec![("backward", vs("inf")), ("forward", Val::U(v as u64))]).expect("ok");
+            StepThreshold { forward: t.backward, backward: t.forward }
+        };
+        assert!(t.forward.is_none() && bound_ok(t.backward, v as f64));
+        kani::cover!(true, "reachable");
+    }
+}
+
+// {backward = "inf"} alone and the empty map: no bounds at all.
+crate::verif_common::harness! {
+    #[kani::unwind(10)]
+    #[kani::stub(alloc::fmt::format, crate::verif_common::fmt_format)]
+    fn c39_p_map_inf_only_and_empty() {
+        let t = if kani::any() { de_map(vec![("backward", vs("inf"))]).expect("ok") } else { de_map(vec![]).expect("ok") };
+        assert!(t.forward.is_none() && t.backward.is_none());
+        kani::cover!(true, "reachable");
+    }
+}
+
+// Any other string for a direction is rejected (in particular "nan" and "-inf").
+crate::verif_common::harness! {
+    #[kani::unwind(10)]
+    #[kani::stub(alloc::fmt::format, crate::verif_common::fmt_format)]
+    fn c39_p_map_bad_string() {
+        let k: u8 = kani::any();
+        kani::assume(k >= 1 && (k as usize) < STRS.len()); // every listed string except "inf"
+        let r = de_map(vec![(if kani::any() { "forward" } else { "backward" }, Val::S(k))]);
+        assert!(r.is_err());
+        kani::cover!(true, "reachable");
+    }
+}
+
+// Duplicate and unknown keys are rejected.
+crate::verif_common::harness! {
+    #[kani::unwind(10)]
+    #[kani::stub(alloc::fmt::format, crate::verif_common::fmt_format)]
+    fn c39_p_map_bad_keys() {
+        let r = match kani::any::<u8>() {
+            0 => de_map(vec![("forward", Val::U(1)), ("forward", Val::U(2))]),
+            1 => de_map(vec![("backward", Val::U(1)), ("backward", Val::U(2))]),
+            2 => de_map(vec![("forwards", Val::U(1))]),
+            3 => de_map(vec![("backward", Val::U(1)), ("Forward", Val::U(1))]),
+            _ => de_map(vec![("", Val::U(1))]),
+        };
+        assert!(r.is_err());
+        kani::cover!(true, "reachable");
+    }
+}
+
+// ThresholdPart on its own (the value deserializer of the map form), every f64.
+crate::verif_common::harness! {
+    #[kani::stub(alloc::fmt::format, crate::verif_common::fmt_format)]
+    fn c39_p_part_f64() {
+        let v: f64 = kani::any();
+        let r = ThresholdPart::deserialize(F64Deserializer::<VErr>::new(v));
+        if let Ok(ThresholdPart(Some(d))) = r {
+            assert!(bound_ok(Some(d), v), "accepted per-direction bound is a finite non-negative number");
+        }
+        kani::cover!(r.is_ok(), "accepted");
+    }
+}
+
+// ------------------------------------------------------------------ accumulated threshold
+
+// `deserialize_option_accumulated_step_panic_threshold`: never panics for any f64; NaN/±inf ⇒ Err;
+// exactly the zero duration ⇒ None ("no limit"); otherwise Some(from_seconds(v)).
+crate::verif_common::harness! {
+    #[kani::stub(alloc::fmt::format, crate::verif_common::fmt_format)]
+    fn c39_p_accumulated_f64() {
+        let v: f64 = kani::any();
+        let r = deserialize_option_accumulated_step_panic_threshold(F64Deserializer::<VErr>::new(v));
+        match r {
+            Ok(None) => { assert!(!v.is_nan() && !v.is_infinite() && NtpDuration::from_seconds(v) == NtpDuration::ZERO) }
+            Ok(Some(d)) => { assert!(!v.is_nan() && !v.is_infinite() && d != NtpDuration::ZERO && d == NtpDuration::from_seconds(v)) }
+            // the statement allows (in fact asks for) rejecting negatives; anything else must be accepted
+            Err(_) => { assert!(v.is_nan() || v.is_infinite() || v < 0.0) }
+        }
+        if v.is_nan() || v.is_infinite() {
+            assert!(r.is_err());
+        }
+        if v == 0.0 {
+            assert!(matches!(r, Ok(None)));
+        }
+        kani::cover!(matches!(r, Ok(None)) && v != 0.0, "sub-resolution value also maps to None");
+        kani::cover!(matches!(r, Ok(Some(_))), "accepted");
+        kani::cover!(r.is_err(), "rejected");
+    }
+}
+
+// post⇐statement ("accepted step thresholds are never negative"): the accumulated-step threshold
+// is a step threshold in single-number form, so an accepted one must not be negative.
+crate::verif_common::harness! {
+    #[kani::stub(alloc::fmt::format, crate::verif_common::fmt_format)]
+    fn c39_p_accumulated_nonneg() {
+        let v: f64 = kani::any();
+        let r = deserialize_option_accumulated_step_panic_threshold(F64Deserializer::<VErr>::new(v));
+        if let Ok(Some(d)) = r {
+            assert!(d >= NtpDuration::ZERO, "accepted accumulated threshold is not negative");
+        }
+        kani::cover!(matches!(r, Ok(Some(_))), "accepted");
+    }
+}
+
+// ------------------------------------------------------------------ canaries (must be refuted)
+
+// FALSE claim: the single-number form accepts every finite number (it must reject negatives).
+crate::verif_common::harness! {
+    #[kani::stub(alloc::fmt::format, crate::verif_common::fmt_format)]
+    fn c39_canary_single_accepts_all_finite() {
+        let v: f64 = kani::any();
+        kani::assume(v.is_finite());
+        let r = StepThreshold::deserialize(F64Deserializer::<VErr>::new(v));
+        assert!(r.is_ok());
+    }
+}
+
+// FALSE claim: a map with a forward entry always leaves forward unset.
+crate::verif_common::harness! {
+    #[kani::unwind(10)]
+    #[kani::stub(alloc::fmt::format, crate::verif_common::fmt_format)]
+    fn c39_canary_map_never_sets_forward() {
+        let v: u32 = kani::any();
+        let r = de_map(vec![("forward", Val::U(v as u64))]);
+        assert!(matches!(r, Ok(t) if t.forward.is_none()));
+    }
+}
+
+#[cfg(all(kani, test))]
+mod replay {
+    use super::*;
+    include!(concat!(env!("VERIF_REPLAY_DIR"), "/ntp_proto__config.rs"));
+}
+
 
 #[cfg(all(kani, test))]
 mod replay {
